@@ -270,6 +270,14 @@ func (mi *MessageInfo) unmarshalPointerLazy(b []byte, p pointer, groupTag protow
 				case lazyFields == nil || lazyFields[f] == lazyValidateOnly:
 					// Attempt to validate this field and leave it for later lazy unmarshaling.
 					o, valid := mi.skipField(b, f, wtyp, opts)
+					if valid == ValidationValid && !o.initialized && opts.flags&piface.UnmarshalCheckRequired != 0 {
+						// The caller wants required fields checked and this
+						// submessage lacks some. Do not defer it: the
+						// initialization check that follows skips deferred
+						// fields on the assumption that unmarshaling has
+						// already vouched for them.
+						valid = ValidationUnknown
+					}
 					switch valid {
 					case ValidationValid:
 						// Skip over the valid field and continue.
